@@ -3,9 +3,11 @@
 import glob, json, os
 V = os.path.dirname(os.path.dirname(os.path.abspath(__file__)))
 claimed = {}
+ready = set(open(os.path.join(V, "tools", "ready.txt")).read().split())  # properties whose check the coordinator has verified on the unchanged tree
 for p in sorted(glob.glob(os.path.join(V, "checks", "C*.json"))):
     c = json.load(open(p))
-    claimed[c["property_id"]] = c
+    if c["property_id"] in ready:
+        claimed[c["property_id"]] = c
 repo_hooks = json.load(open(os.path.join(V, "tools", "hooks.json")))
 m = {
     "version": 1,
